@@ -110,6 +110,11 @@ async fn run_faulted<const N: usize>(cfg: HCfg, beh: BehaviourJ, dir: std::path:
     d.open(false).await?;
     let mut lines = vec![json!({"ev": "reset", "fault": format!("{}:{}:{}:{}", plan.op, plan.kind, plan.how, plan.nth)})];
     rec.set_fault(Some(plan.clone()));
+    // --arm-after-restart: the fault is armed only from the second session of the behaviour on (faults on files that
+    // were reopened); what a fault in the first session does is the business of the behaviours without a restart
+    if std::env::args().any(|a| a == "--arm-after-restart") && beh.steps.iter().any(|s| s.act.a == "restart") {
+        rec.set_armed(false);
+    }
     let mut vid = 0u64;
     let mut hit_any = false;
     let mut snap_mm = Vec::new();
